@@ -21,7 +21,9 @@ import (
 	"crypto/sha256"
 	"fmt"
 	"io"
+	"math"
 	"os"
+	"path/filepath"
 	"reflect"
 	"sort"
 	"strings"
@@ -29,6 +31,8 @@ import (
 	"github.com/EliCDavis/polyform/formats/gltf"
 	"github.com/EliCDavis/polyform/formats/obj"
 	"github.com/EliCDavis/polyform/formats/ply"
+	"github.com/EliCDavis/polyform/formats/splat"
+	"github.com/EliCDavis/polyform/formats/spz"
 	"github.com/EliCDavis/polyform/formats/stl"
 	"github.com/EliCDavis/polyform/math/geometry"
 	"github.com/EliCDavis/polyform/math/quaternion"
@@ -397,7 +401,18 @@ func (h *c01Hist) pickWhere(ok func(modeling.Mesh) bool) int {
 // ---------------------------------------------------------------------------------------------
 // generators
 
+func (h *c01Hist) tmp() string {
+	d := filepath.Join(os.TempDir(), fmt.Sprintf("c01h-%d", os.Getpid()))
+	os.MkdirAll(d, 0o755)
+	return d
+}
+
 func (h *c01Hist) val() float64 { h.next++; return h.next }
+
+// values a writer may be tempted to "clean up": non-unit / zero / huge / tiny / negative / NaN / Inf
+func (h *c01Hist) awk() float64 {
+	return []float64{0, 0, 1, -1, 0.5, 2, 7, 1e30, -1e30, 1e-30, 1.5, -0.25, 255, math.NaN(), math.Inf(1), math.Inf(-1)}[h.c.Rng.Intn(16)]
+}
 
 func (h *c01Hist) spare() int { return []int{0, 0, 0, 1, 3, 8}[h.c.Rng.Intn(6)] }
 
@@ -649,6 +664,22 @@ var c01Builders = []c01Builder{
 		return repeat.Mesh(primitives.UnitCube(), repeat.FibonacciSphere(1+h.c.Rng.Intn(4), h.ext()))
 	}},
 	{"empty", func(h *c01Hist) modeling.Mesh { return modeling.EmptyMesh(h.topo()) }},
+	{"splatcloud", func(h *c01Hist) modeling.Mesh {
+		n := 1 + h.c.Rng.Intn(5)
+		rot := make([]vector4.Float64, n)
+		for i := range rot {
+			rot[i] = vector4.New(h.awk(), 1., 0., 0.5)
+		}
+		op := make([]float64, n)
+		for i := range op {
+			op[i] = h.awk()
+		}
+		h.keep = append(h.keep, rot, op)
+		return modeling.NewPointCloud(
+			map[string][]vector4.Float64{modeling.RotationAttribute: rot},
+			map[string][]vector3.Float64{modeling.PositionAttribute: h.f3s(n, false), modeling.ScaleAttribute: h.f3s(n, true), modeling.FDCAttribute: h.f3s(n, true)},
+			nil, map[string][]float64{modeling.OpacityAttribute: op}, nil)
+	}},
 }
 
 // a library-built mesh: often a builder already used in this history (a SECOND instance while the first is live)
@@ -803,6 +834,8 @@ var c01OpNames = []string{
 	"flatnormals", "smoothnormals", "smoothnormals.implicitweld", "laplacian", "center", "normalize", "meshops.translate", "meshops.scale",
 	"meshops.rotate", "scalealongnormal", "vertexcolorspace", "transform.chain", "repeat",
 	"write.ply", "write.obj", "write.gltf", "write.stl", "readonly",
+	"write.ply", "write.ply.meshwriter", "write.ply.save", "write.obj.meshes", "write.obj.save", "write.stl.save",
+	"write.gltf", "write.gltf", "write.gltf.text", "write.gltf.save", "write.splat", "write.spz", "awkward",
 	"ragged", "ragged",
 }
 
@@ -969,6 +1002,44 @@ func (h *c01Hist) apply(name string) (res []c01Result, ok bool) {
 		}
 		d := h.f1s(n)
 		return one(m.SetFloat1Attribute("Ragged", d), fmt.Sprintf("setattr 0 Ragged %d %d", n, cap(d)-n), a), true
+	case "awkward":
+		// normals / colours / texcoords / weights with awkward values (never positions: spatial structures need finite ones)
+		a := h.pick()
+		m := h.pool[a]
+		n := c01AttrLen(m)
+		if c01NoAttrs(m) {
+			n = 1 + rng.Intn(4)
+		}
+		switch rng.Intn(4) {
+		case 0:
+			d := make([]vector3.Float64, n)
+			for i := range d {
+				d[i] = vector3.New(h.awk(), h.awk(), h.awk())
+			}
+			h.keep = append(h.keep, d)
+			return one(m.SetFloat3Attribute(modeling.NormalAttribute, d), fmt.Sprintf("setattr 2 %s %d 0", modeling.NormalAttribute, n), a), true
+		case 1:
+			d := make([]vector4.Float64, n)
+			for i := range d {
+				d[i] = vector4.New(h.awk(), h.awk(), h.awk(), h.awk())
+			}
+			h.keep = append(h.keep, d)
+			return one(m.SetFloat4Attribute(modeling.ColorAttribute, d), fmt.Sprintf("setattr 3 %s %d 0", modeling.ColorAttribute, n), a), true
+		case 2:
+			d := make([]vector2.Float64, n)
+			for i := range d {
+				d[i] = vector2.New(h.awk(), h.awk())
+			}
+			h.keep = append(h.keep, d)
+			return one(m.SetFloat2Attribute(modeling.TexCoordAttribute, d), fmt.Sprintf("setattr 1 %s %d 0", modeling.TexCoordAttribute, n), a), true
+		default:
+			d := make([]vector3.Float64, n)
+			for i := range d {
+				d[i] = vector3.New(h.awk(), h.awk(), h.awk())
+			}
+			h.keep = append(h.keep, d)
+			return one(m.SetFloat3Attribute(modeling.ColorAttribute, d), fmt.Sprintf("setattr 2 %s %d 0", modeling.ColorAttribute, n), a), true
+		}
 	case "modify", "modify.parallel":
 		a := h.pick()
 		m := h.pool[a]
@@ -1240,6 +1311,24 @@ func (h *c01Hist) apply(name string) (res []c01Result, ok bool) {
 			h.c.Note("write.ply.err")
 		}
 		return nil, true
+	case "write.ply.meshwriter":
+		a := h.pick()
+		mw := ply.MeshWriter{Format: []ply.Format{ply.ASCII, ply.BinaryLittleEndian}[rng.Intn(2)], WriteUnspecifiedProperties: true,
+			Properties: []ply.PropertyWriter{
+				ply.Vector3PropertyWriter{ModelAttribute: modeling.PositionAttribute, PlyPropertyX: "x", PlyPropertyY: "y", PlyPropertyZ: "z", Type: ply.Float},
+				ply.Vector3PropertyWriter{ModelAttribute: modeling.NormalAttribute, PlyPropertyX: "nx", PlyPropertyY: "ny", PlyPropertyZ: "nz", Type: ply.Float},
+				ply.Vector3PropertyWriter{ModelAttribute: modeling.ColorAttribute, PlyPropertyX: "red", PlyPropertyY: "green", PlyPropertyZ: "blue", Type: ply.UChar},
+			}}
+		if err := mw.Write(h.pool[a], io.Discard); err != nil {
+			h.c.Note("write.ply.meshwriter.err")
+		}
+		return nil, true
+	case "write.ply.save":
+		a := h.pick()
+		if err := ply.Save(filepath.Join(h.tmp(), "m.ply"), h.pool[a], ply.BinaryLittleEndian); err != nil {
+			h.c.Note("write.ply.save.err")
+		}
+		return nil, true
 	case "write.obj":
 		a := h.pick()
 		if err := obj.WriteMesh(h.pool[a], "m.mtl", io.Discard); err != nil {
@@ -1247,12 +1336,49 @@ func (h *c01Hist) apply(name string) (res []c01Result, ok bool) {
 		}
 		_ = obj.WriteMaterialsFromMesh(h.pool[a], io.Discard)
 		return nil, true
-	case "write.gltf":
-		a := h.pick()
-		m := h.pool[a]
-		var buf bytes.Buffer
-		if err := gltf.WriteBinary(gltf.PolyformScene{Models: []gltf.PolyformModel{{Name: "m", Mesh: &m}}}, &buf); err != nil {
-			h.c.Note("write.gltf.err")
+	case "write.obj.meshes":
+		a, b := h.pick(), h.pick()
+		if err := obj.WriteMeshes([]obj.ObjMesh{{Name: "a", Mesh: h.pool[a]}, {Name: "b", Mesh: h.pool[b]}, {Name: "a2", Mesh: h.pool[a]}}, "", io.Discard); err != nil {
+			h.c.Note("write.obj.meshes.err")
+		}
+		return nil, true
+	case "write.obj.save":
+		a, b := h.pick(), h.pick()
+		if rng.Intn(2) == 0 {
+			if err := obj.Save(filepath.Join(h.tmp(), "m.obj"), h.pool[a]); err != nil {
+				h.c.Note("write.obj.save.err")
+			}
+		} else if err := obj.SaveAll(filepath.Join(h.tmp(), "all.obj"), map[string]modeling.Mesh{"a": h.pool[a], "b": h.pool[b]}); err != nil {
+			h.c.Note("write.obj.save.err")
+		}
+		return nil, true
+	case "write.gltf", "write.gltf.text", "write.gltf.save":
+		// the glTF writer takes the mesh BY POINTER: hand out pointers to the pool's own struct values, one mesh shared by
+		// two models plus a second mesh, so that anything assigned through the pointer shows in the re-read that follows
+		a, b := h.pick(), h.pick()
+		pa, pb := &h.pool[a], &h.pool[b]
+		sc := vector3.New(2., 2., 2.)
+		scene := gltf.PolyformScene{Models: []gltf.PolyformModel{
+			{Name: "a", Mesh: pa}, {Name: "b", Mesh: pb}, {Name: "a-again", Mesh: pa, Scale: &sc},
+			{Name: "a-mat", Mesh: pa, Material: &gltf.PolyformMaterial{Name: "m"}},
+		}}
+		var err error
+		switch name {
+		case "write.gltf":
+			var buf bytes.Buffer
+			err = gltf.WriteBinary(scene, &buf)
+		case "write.gltf.text":
+			var buf bytes.Buffer
+			err = gltf.WriteText(scene, &buf)
+		default:
+			if rng.Intn(2) == 0 {
+				err = gltf.SaveBinary(filepath.Join(h.tmp(), "m.glb"), scene)
+			} else {
+				err = gltf.SaveText(filepath.Join(h.tmp(), "m.gltf"), scene)
+			}
+		}
+		if err != nil {
+			h.c.Note(name + ".err")
 		}
 		return nil, true
 	case "write.stl":
@@ -1262,6 +1388,30 @@ func (h *c01Hist) apply(name string) (res []c01Result, ok bool) {
 		}
 		if err := stl.WriteMesh(io.Discard, h.pool[a]); err != nil {
 			h.c.Note("write.stl.err")
+		}
+		return nil, true
+	case "write.stl.save":
+		a := h.pickWhere(func(m modeling.Mesh) bool { return isTri(m) && hasPos(m) })
+		if a < 0 {
+			return nil, true
+		}
+		if err := stl.Save(filepath.Join(h.tmp(), "m.stl"), h.pool[a]); err != nil {
+			h.c.Note("write.stl.save.err")
+		}
+		return nil, true
+	case "write.splat", "write.spz":
+		a := h.pickWhere(func(m modeling.Mesh) bool { return m.HasFloat4Attribute(modeling.RotationAttribute) })
+		if a < 0 {
+			a = h.pick()
+		}
+		var err error
+		if name == "write.splat" {
+			err = splat.Write(io.Discard, h.pool[a])
+		} else {
+			err = spz.Write(h.pool[a], io.Discard)
+		}
+		if err != nil {
+			h.c.Note(name + ".err")
 		}
 		return nil, true
 	case "readonly":
@@ -1388,6 +1538,7 @@ func (h *c01Hist) scriptedBranch() {
 }
 
 func runC01(c *Ctx) {
+	defer os.RemoveAll(filepath.Join(os.TempDir(), fmt.Sprintf("c01h-%d", os.Getpid())))
 	unit := c01Digest((&c01Hist{c: c, mats: map[*modeling.Material]int{}}).canon(primitives.UnitCube()))
 	maxOps := 12
 	if c.Tier == "thorough" {
